@@ -43,6 +43,31 @@ class MGraph(Model):
     def successors(self, n):
         return iter(sorted(self._c._fanout.get(n, ())))
 
+    @property
+    def pred(self):
+        return {n: {p: {} for p in sorted(self._c._fanin.get(n, ()))} for n in self._c._attrs}
+
+    @property
+    def succ(self):
+        return {n: {p: {} for p in sorted(self._c._fanout.get(n, ()))} for n in self._c._attrs}
+
+    adj = succ
+
+    def in_degree(self, n):
+        return len(self._c._fanin.get(n, ()))
+
+    def out_degree(self, n):
+        return len(self._c._fanout.get(n, ()))
+
+    def in_edges(self, n):
+        return [(p, n) for p in sorted(self._c._fanin.get(n, ()))]
+
+    def out_edges(self, n):
+        return [(n, p) for p in sorted(self._c._fanout.get(n, ()))]
+
+    def __getitem__(self, n):
+        return {p: {} for p in sorted(self._c._fanout.get(n, ()))}
+
 
 class MBlackBox(Model):
     def __init__(self, name, inputs, outputs):
